@@ -37,7 +37,7 @@ MIN_CALL = re.compile(r"\bOrd>?::min$|core::cmp::min$|::min$")
 MAX_CALL = re.compile(r"\bOrd>?::max$|core::cmp::max$")
 SAT_SUB = re.compile(r"::saturating_sub$")
 CHECKED = re.compile(r"::checked_(add|sub|mul)$")
-NON_RESIZING = re.compile(r"\bDerefMut>?::deref_mut$|::as_mut_slice$|\bAsMut<.*>>?::as_mut$|\bBorrowMut<.*>>?::borrow_mut$|\bIterator>?::next$|::iter_mut$|::as_mut_ptr$")
+NON_RESIZING = re.compile(r"\bIndexMut<.*>>?::index_mut$|\bIndex<.*>>?::index$|::(fill|copy_from_slice|clone_from_slice|swap|reverse|sort\w*|get_mut|first_mut|last_mut|chunks_mut|split_at_mut)$|\bDerefMut>?::deref_mut$|::as_mut_slice$|\bAsMut<.*>>?::as_mut$|\bBorrowMut<.*>>?::borrow_mut$|\bIterator>?::next$|::iter_mut$|::as_mut_ptr$")
 FROM_ELEM = re.compile(r"\bvec::from_elem$")
 FIND_CALL = re.compile(r"core::str::<impl str>::(find|rfind)$|memchr::memchr$")
 INPUT_CALL = re.compile(r"::from_(be|le|ne)_bytes$|\bReadBytesExt>?::read_\w+$|BinReaderExt>?::read_\w+$|\bBinRead>?::read\w*$|::read_(u|i)\d+\w*$|::get_(u|i)\d+\w*$")
@@ -867,6 +867,12 @@ class Analysis:
                 inst = inst.add(sub, v)
             if inst is not None:
                 val = inst
+        if cid and cid.startswith(("cascette_", "verif_selftest")):
+            self.arg_taints = getattr(self, "arg_taints", {})
+            for i_, a_ in enumerate(args):
+                v_ = self.operand(st, a_, bb, "t")
+                if v_ is not None and v_.t:
+                    self.arg_taints.setdefault((cid, i_ + 1), set()).update(self.taint_of([v_]))
         # preconditions of workspace callees (bounds their body could only prove under an assumption about its parameters)
         for H in self.requires.get(cid, ()):
             inst = Lin(H.c)
@@ -1247,4 +1253,11 @@ def analyse_closure(prog, cl, rounds=4, krate_prefix="cascette_"):
         for c_ in changed:
             dirty |= callers_of.get(c_, set())
             dirty.add(c_)
+    # what the in-closure callers pass for each integer parameter (so that `param` taint can be resolved one level up)
+    param_in = {}
+    for bid, a in results.items():
+        for (cid, i_), ts in getattr(a, "arg_taints", {}).items():
+            param_in.setdefault(cid, {}).setdefault(i_, set()).update(ts)
+    for bid, a in results.items():
+        a.param_in = param_in.get(bid, {})
     return results, requires
